@@ -1,5 +1,9 @@
 (** C10: task.LoopingCall (src/twisted/internet/task.py) on a task.Clock that is used only by the loop.
-    Integer time (dyadic rationals scaled by 2^k); interval > 0.
+    Integer time (dyadic rationals scaled by 2^k); interval >= 0.  The clock runs, at each advance, the calls
+    that are due when the advance starts; what they schedule waits for the next advance even if its time is
+    already reached.  That is the reactor's behaviour (C08: a call scheduled during an iteration does not run in
+    it); for interval > 0 it is also task.Clock's, because the loop always reschedules strictly later.  With
+    interval = 0 (call ASAP) task.Clock.advance would never return; the reactor calls f once per iteration.
 
     f's behaviour at its k-th invocation is given by a table [beh k]; a returned Deferred is fired
     later by the test program ([Fire]).  [with_count] wraps f in the skipped-intervals counter of
@@ -36,6 +40,8 @@ Inductive ev :=
 | EDoubleFire                                   (* a start() Deferred fired twice (AlreadyCalledError): never happens *)
 | EAssert                                       (* AssertionError / ValueError from start / stop / reset *)
 | ENoFire                                       (* Fire with nothing outstanding: harness no-op *)
+| EEpoch (base : Z)                             (* ghost: start()/reset() set a new starttime; base = interval index,
+                                                   relative to it, of the last counted call (see [lastidx]) *)
 | EState (running : bool) (pending : list Z).   (* lc.running, times of the clock's pending calls *)
 
 Record st := mkSt {
@@ -76,9 +82,18 @@ Definition set_waiting (w : list nat) (s : st) : st :=
 Definition set_now (t : Z) (s : st) : st :=
   mkSt t (started s) (start s) (interval s) (runAtStart s) (running s) (pend s) (nextid s) (call s)
        (waiting s) (dgen s) (dcur s) (dfired s) (realLast s) (ncalls s) (wasreset s) (log s).
+(** _intervalOf(t) = int((t - starttime) / interval): truncation toward zero; index of the last counted call
+    (before the first one: -1 for a now=True loop, whose immediate call counts the boundary at starttime; else 0) *)
+Definition lastidx_at (st0 i : Z) (ras : bool) (rl : option Z) : Z :=
+  match rl with
+  | Some l => Z.quot (l - st0) i
+  | None => if ras then -1 else 0
+  end.
+
 Definition set_epoch (st0 : Z) (s : st) : st :=      (* reset(): starttime := now *)
   mkSt (now s) (started s) st0 (interval s) (runAtStart s) (running s) (pend s) (nextid s) (call s)
-       (waiting s) (dgen s) (dcur s) (dfired s) (realLast s) (ncalls s) true (log s).
+       (waiting s) (dgen s) (dcur s) (dfired s) (realLast s) (ncalls s) true
+       (EEpoch (lastidx_at st0 (interval s) (runAtStart s) (realLast s)) :: log s).
 Definition set_last (l : Z) (s : st) : st :=
   mkSt (now s) (started s) (start s) (interval s) (runAtStart s) (running s) (pend s) (nextid s) (call s)
        (waiting s) (dgen s) (dcur s) (dfired s) (Some l) (ncalls s) (wasreset s) (log s).
@@ -97,7 +112,9 @@ Fixpoint remove_call (i : nat) (l : list (nat * Z)) : list (nat * Z) :=
   end.
 
 (** _scheduleFrom(when): when + howLong, howLong = interval - ((when - starttime) % interval) *)
-Definition next_time (st0 i when : Z) : Z := when + (i - (when - st0) mod i).
+Definition next_time (st0 i when : Z) : Z :=
+  if i =? 0 then when                       (* interval 0: howLong() = 0, as soon as possible *)
+  else when + (i - (when - st0) mod i).
 
 Definition schedule (when : Z) (s : st) : st :=
   let t := next_time (start s) (interval s) when in
@@ -136,8 +153,8 @@ Definition do_reset (s : st) : st :=
     end
   else emit EAssert s.
 
-(** _intervalOf(t) = int((t - starttime) / interval): truncation toward zero *)
 Definition interval_of (s : st) (t : Z) : Z := Z.quot (t - start s) (interval s).
+Definition lastidx (s : st) : Z := lastidx_at (start s) (interval s) (runAtStart s) (realLast s).
 
 Definition has_waiting (s : st) : bool := match waiting s with [] => false | _ => true end.
 
@@ -163,7 +180,9 @@ Section Loop.
   (** LoopingCall.__call__ (self.call = None; maybeDeferred(self.f); addCallback(cb); addErrback(eb)) *)
   Definition invoke (s : st) : st :=
     let s1 := set_clock (pend s) (nextid s) None s in
-    if with_count then
+    if with_count && (interval s1 =? 0) then      (* if self.interval == 0: count is always 1 *)
+      run_f (emit (ECount 1) (set_last (now s1) s1))
+    else if with_count then
       let last := match realLast s1 with
                   | Some l => l
                   | None => if runAtStart s1 then start s1 - interval s1 else start s1
@@ -188,11 +207,12 @@ Section Loop.
   Definition step (s : st) (o : op) : st :=
     match o with
     | Start i nowflag =>
-        if running s || (i <=? 0) then emit EAssert s
+        if running s || (i <? 0) then emit EAssert s        (* AssertionError / ValueError *)
         else
           let s1 := mkSt (now s) true (now s) i nowflag true (pend s) (nextid s) (call s)
                          (waiting s) (S (dgen s)) (Some (dgen s)) (dfired s) (realLast s) (ncalls s)
-                         (wasreset s || started s) (log s) in
+                         (wasreset s || started s)
+                         (EEpoch (lastidx_at (now s) i nowflag (realLast s)) :: log s) in
           if nowflag then invoke s1 else schedule (now s1) s1
     | Advance a => fire_due (set_now (now s + a) s)
     | Fire ok =>
